@@ -347,8 +347,8 @@ Qed.
 Theorem imp_parseLine o line :
   imp_sam_parseLine o line
   = match parse_line o line with
-    | Ok r => Ret (sam_of r, false)
-    | _ => Ret (sam_zero, true)
+    | Ok r => Ret (Some (sam_of r), false)
+    | _ => Ret (None, true)
     end.
 Proof.
   unfold imp_sam_parseLine, parse_line. unfold bytes, byte in *. change (Imp_sam_SAM [] 0%Z [] 0%Z 0%Z [] [] 0%Z 0%Z [] [] []) with sam_zero.
